@@ -198,6 +198,15 @@ def _client_main(sim, rr: RunRecord, ci: int, cspec: dict, shared: dict):
                 elif k == 'sleep':
                     sim.sleep(op['d'])
                     val = ('slept', None)
+                elif k == 'wait_steps':
+                    # let the rest of the system take n scheduler steps
+                    # (or fall quiet, whichever comes first): places the
+                    # next request at an arbitrary point of the run
+                    target = sim.steps + int(op['n'])
+                    sim.block(lambda: sim.steps >= target,
+                              f'wait_steps {op["n"]}',
+                              deadline=sim.now + 0.05)
+                    val = ('waited', None)
                 else:
                     raise HarnessError(f'unknown client op {k}')
             except HarnessError:
